@@ -97,6 +97,8 @@ fn main() {
         #[cfg(feature = "full")]
         "c05-real" => realwire::run_c05_real(&cfg),
         #[cfg(feature = "full")]
+        "c10-real" => realwire::run_c10_real(&cfg),
+        #[cfg(feature = "full")]
         "c07" => realwire::run_c07(&cfg),
         #[cfg(feature = "full")]
         "c12b" => realwire::run_c12b(&cfg),
